@@ -28,11 +28,83 @@ def const_of(g, crate, path):
     return int(c["val"]) if c is not None and c["val"] is not None else None
 
 
+def _find_arrays(items, out):
+    for it in items:
+        k = it["k"]
+        if k == "array":
+            out.append(it)
+            _find_arrays([it["elem"]], out)
+        elif k == "switch":
+            for sub in it["table"].values():
+                _find_arrays(sub, out)
+        elif k == "flagif":
+            _find_arrays(it["else"], out)
+            for _ens, sub in it["arms"]:
+                _find_arrays(sub, out)
+        elif k in ("optional", "zlib"):
+            _find_arrays(it.get("items", []), out)
+    return out
+
+
+def check_alloc_guards(ctx, st):
+    """`let allocation_size = count * K; if allocation_size > MAX { return Err(AllocationTooLarge) }`: K may not exceed the minimum
+    wire size of one element - otherwise count * K can pass MAX for a count whose elements do fit into a frame, and a valid
+    message is rejected."""
+    g = st["g"]
+    n = 0
+    for p in container_pairs():
+        a = p["obj"].ast
+        if p["login"]:
+            continue
+        rfs = reader_fns(p)
+        if not rfs:
+            continue
+        rl = wowm.RefLayouts(st["P"].model, scope_lookup(p))
+        calc = wowm.SizeCalc(rl, cap_for(p))
+        try:
+            arrays = _find_arrays(rl.container(a), [])
+        except wowm.WowmError:
+            continue
+        by_count = {}
+        for it in arrays:
+            if it["count"][0] == "field":
+                by_count.setdefault(it["count"][1], []).append(it)
+        for fl, crate, fn in rfs:
+            body = fn["hir"]
+            stmts = [x for x in H.walk(body) if H.tag(x) == "let" and H.tag(x[1]) == "bind" and x[1][1] == "allocation_size" and x[2] is not None]
+            for stt in stmts:
+                n += 1
+                e = H.strip(stt[2])
+                K = 1
+                if H.tag(e) == "bin" and e[2] == "Mul" and H.lit_int(e[5]) is not None:
+                    K = H.lit_int(e[5])
+                    e = H.strip(e[4])
+                while H.tag(e) == "call" and len(H.call_args(e)) == 1 or H.tag(e) == "cast":
+                    e = H.strip(H.call_args(e)[0] if H.tag(e) == "call" else e[4])
+                cnt = H.local_name(e)
+                key = f"{p['scope']}|{a.name}|{fl}|{cnt}"
+                cands = by_count.get(cnt) or by_count.get((cnt or "").replace("r#", ""))
+                if cnt is None or not cands:
+                    ctx.violate("alloc.guard-sound", key + "|shape", f"{a.name} ({p['scope']}) {fn['name']}: allocation guard `{H.short(stt[2], maxlen=60)}` does not refer to the count field of an array of the definition — review", fn["file"], fn["line"])
+                    continue
+                try:
+                    emin = min(calc.item(it["elem"], {})[0] for it in cands)
+                except wowm.WowmError as ex:
+                    ctx.violate("alloc.guard-sound", key + "|ref", f"{a.name}: element size not computable: {ex}")
+                    continue
+                if K > max(emin, 1):
+                    it0 = cands[0]
+                    ctx.violate("alloc.guard-sound", key, f"{a.name} ({p['scope']}) {fn['name']}: the allocation guard counts {K} bytes per element of `{it0.get('name')}`, but one element occupies as little as {emin} byte(s) "
+                                f"on the wire: a message with {cnt} >= MAX/{K} elements that fits in a frame is rejected with AllocationTooLargeError", fn["file"], fn["line"])
+    ctx.rule("alloc.guard-sound", n, floor=169, note="allocation guards in readers: bytes counted per element <= minimum wire size of the element (so the guard rejects no encoding that fits in a frame)")
+
+
 def run(ctx):
     st = state()
     g = st["g"]
     n = 0
     n_const = 0
+    check_alloc_guards(ctx, st)
     for p in container_pairs():
         a = p["obj"].ast
         if p["login"] or a.kind == "struct":
